@@ -810,7 +810,7 @@ func (fr *Frame) loopLatch(from, head *ssa.BasicBlock, li *loopInfo) {
 		} else {
 			g = and(app("<=", "0", li.m0), app("<", m.T, li.m0))
 		}
-		o := u.oblig("decreases", fmt.Sprintf("loop %d measure decreases and is bounded: %s", li.ordinal, li.spec.Decreases.Text), implies(edge, g), nil)
+		o := u.oblig("decreases", fmt.Sprintf("loop %d measure decreases and is bounded: %s", li.ordinal, li.spec.Decreases.Text), implies(edge, g), li.spec.Decreases.Props)
 		o.Pos = li.spec.Decreases.Where
 	} else {
 		fr.autoTermination(from, head, li, edge)
@@ -844,6 +844,10 @@ func (fr *Frame) autoTermination(from, head *ssa.BasicBlock, li *loopInfo, edge 
 				}
 			}
 		}
+	}
+	if fr.ct != nil && fr.ct.NoTerm != "" {
+		u.assumed[fmt.Sprintf("termination of %s is not proved: %s", fr.fn.Name(), fr.ct.NoTerm)] = true
+		return
 	}
 	u.oblig("decreases", fmt.Sprintf("loop %d of %s has no decreases clause", li.ordinal, fr.fn.Name()), implies(edge, "false"), nil).Detail = "missing-measure"
 }
